@@ -326,6 +326,28 @@ def drive_rounding(rec, count):
                 break
         else:
             n_ok += 1
+    # long vectors with the three operands in different alignment classes (integer-valued data: exact results, compared with numpy)
+    for m in ([16384, 65536] if count < 100 else [4096, 8192, 16384, 32768, 65536]):
+        for kern in kernels.PW_KERNELS:
+            if not kernels.applicable(kern, m) or kern[3] == "simple":
+                continue
+            g = np.random.default_rng(rec.seed + m)
+            a, b, r0 = (g.integers(-1000, 1001, (m, 2)).astype(np.float64) for _ in range(3))
+            for offs in ((8, 0, 0), (0, 16, 0), (0, 0, 24), (40, 8, 32)):
+                label = "%s m=%d operands at offsets %s" % (kern[0], m, offs)
+                if not rec.progress(label):
+                    continue
+                got, why = kernels.run_pointwise(L, tables, kern, m, MASK_NONE, a, b, r0, "none", off=offs)
+                rec.case(("long", kern[0], m, offs))
+                if got is None:
+                    rec.violation(label + ": " + why, {})
+                    continue
+                re = a[:, 0] * b[:, 0] - a[:, 1] * b[:, 1] + (r0[:, 0] if kern[2] == "addmul" else 0)
+                im = a[:, 0] * b[:, 1] + a[:, 1] * b[:, 0] + (r0[:, 1] if kern[2] == "addmul" else 0)
+                if not (np.array_equal(got[:, 0], re) and np.array_equal(got[:, 1], im)):
+                    rec.violation(label + ": result differs from the exact complex products", {"kernel": kern[0], "m": m})
+                else:
+                    n_ok += 1
     rec.data["ok"] = n_ok
 
 
